@@ -76,7 +76,7 @@ struct Swarm {
     bool private_version = true;
     uint8_t major = 1, minor = 0, priv = 1;
     // op mix (weights)
-    unsigned w_qr = 10, w_aec = 3, w_mm = 3, w_write = 2, w_rotate = 1, w_add = 0, w_set = 0, w_ctr = 1, w_ext = 0;
+    unsigned w_qr = 10, w_aec = 3, w_mm = 3, w_write = 2, w_rotate = 1, w_add = 0, w_set = 0, w_ctr = 1, w_ext = 0, w_edit = 0;
     unsigned n_ops = 30;
     unsigned rotate_export_pm = 500;
     unsigned untimed_pm = 200;      // records without a timestamp
@@ -190,6 +190,7 @@ inline Swarm swarm(uint64_t seed, Profile prof) {
         default: break;
     }
     if (prof != P_EMPTY && r.chance(1, 5)) s.w_ext = 2;
+    if (prof == P_HINTS || prof == P_ROTATE || r.chance(1, 6)) { s.w_edit = 2; if (prof == P_HINTS) s.w_rotate = 2; }
     if (prof == P_FAULT) s.w_ext = 0;
     for (unsigned i = 0; i < s.pool; i++) {
         s.ip_pool.push_back(bytes(r, r.chance(1, 8) ? r.below(20) : (r.coin() ? 4 : 16)));
